@@ -112,3 +112,8 @@ def nontrivial(case, result):
     if toks[0].startswith("U."):
         return sum(1 for x in b[1:] if x) > 0 and from_digits(a, w) > from_digits(b, w)
     return len(b) > 1 and b[1:] != [0] * (len(b) - 1) and b[1:] != [(1 << w) - 1] * (len(b) - 1)
+
+
+def prebuild(root):
+    """translator: regenerate coq/Generated/DigitGen.v from /repo/src/digit.rs (proved equal to Model/Digit.v in Proofs/DigitTie.v)"""
+    return run_translator(root, "rs2v_digit.py")
